@@ -2194,6 +2194,11 @@ int EGLPNUM_TYPENAME_ILLlib_chgsense (
 			rval = 1;
 			ILL_CLEANUP;
 		}
+		/* a row that is not ranged any more has no range either (the getters and
+		 * the float copies of the exact solver read this array, a copy starts
+		 * from zero) */
+		if (qslp->rangeval && sense[i] != 'R')
+			EGLPNUM_TYPENAME_EGlpNumZero (qslp->rangeval[rowlist[i]]);
 	}
 
 CLEANUP:
